@@ -3,9 +3,14 @@
    (1) the asm templates as written in the source, for every block count, read and write only
        cells [0, 5*(size/blk)) of `a`, only read `b`, leave `b` unchanged and terminate;
    (2) at both call sites the pointers cover `size` cells: the model's bounds assertion
-       (Internal 150) and length assertion (Internal 101) never fire. *)
+       (Internal 150) and length assertion (Internal 101) never fire;
+   (3) `String::from_utf8_unchecked` in to_str_radix: for every canonical value and every radix
+       2..=36 the emitted bytes are '0'..'9' / 'a'..'z' (plus one leading '-' for a negative
+       BigInt), i.e. ASCII, hence valid UTF-8 (C15_to_str_ascii, C15_ito_str_ascii). *)
 From BigNum Require Import Base BaseLemmas X86 AddSub SpecAddSub AddSubProofs AsmProofs Extracted InstAddSub.
 From BigNum Require Import Div DivProofs DivProofsApi InstDiv Rand SpecRand RandProofs.
+From BigNum Require Import SpecBytes Radix RadixText RadixKernels RadixApi SpecRadix RadixTextProofs
+  RadixInst RadixAsciiLemmas InstRadix InstRadixMul.
 Open Scope Z_scope.
 
 Theorem C15_asm_add_bounds : forall a b size, wf a -> wf b ->
@@ -98,5 +103,45 @@ Theorem C15_rand_u32_view : forall n ws rest, 0 <= n -> words ws -> words rest -
 Proof. intros; apply gen_biguint_words; auto. Qed.
 Print Assumptions C15_rand_u32_view.
 
-Example C15_nonvacuous : wfb [1; 2; 3; 4; 5; 6] = true /\ 1 <= 6 / ap_blk addsub.
-Proof. split; vm_compute; [reflexivity|discriminate]. Qed.
+(* `to_str_radix` builds its String with `from_utf8_unchecked`: every byte it emits is an ASCII
+   digit or lower-case letter — for every canonical value of any length and every legal radix
+   (the premise of the radix theorems about operands of >= 64 digits is the multiplication
+   theorem umul_spec of C02: InstRadixMul.small_or_umul_proved). *)
+Theorem C15_to_str_ascii : forall u r, canon u -> 2 <= r <= 36 ->
+  exists s, u_to_str_radix radix u r = Ret s /\
+            Forall (fun c => 48 <= c <= 57 \/ 97 <= c <= 122) s.
+Proof.
+  intros u r Cu Hr.
+  rewrite inst_to_str_radix by auto using radix_params_std, small_or_umul_proved.
+  destruct (spec_to_str (val u) r) as [s| |] eqn:E.
+  - exists s. split; [reflexivity|]. apply (to_str_alnum (val u) r s); [apply val_nonneg, Cu|exact E].
+  - unfold spec_to_str, radix_in in E.
+    replace ((2 <=? r) && (r <=? 36)) with true in E by (symmetry; apply andb_true_iff; split; apply Z.leb_le; lia).
+    discriminate.
+  - unfold spec_to_str in E. destruct (radix_in 2 36 r); discriminate.
+Qed.
+Print Assumptions C15_to_str_ascii.
+
+(* BigInt: the same bytes, preceded by exactly one '-' (45) when the value is negative *)
+Theorem C15_ito_str_ascii : forall x r, icanon x -> 2 <= r <= 36 ->
+  exists s, i_to_str_radix radix x r = Ret s /\
+            Forall (fun c => 48 <= c <= 57 \/ 97 <= c <= 122 \/ c = 45) s /\
+            (0 <= ival x -> Forall (fun c => 48 <= c <= 57 \/ 97 <= c <= 122) s) /\
+            (ival x < 0 -> exists t, s = 45 :: t /\ Forall (fun c => 48 <= c <= 57 \/ 97 <= c <= 122) t).
+Proof.
+  intros x r Cx Hr.
+  rewrite inst_ito_str_radix by auto using radix_params_std, small_or_umul_proved.
+  destruct (spec_to_str (ival x) r) as [s| |] eqn:E.
+  - exists s. split; [reflexivity|]. split; [exact (to_str_ascii _ _ _ E)|]. split.
+    + intros Hp. exact (to_str_alnum _ _ _ Hp E).
+    + intros Hn. exact (to_str_neg _ _ _ Hn E).
+  - unfold spec_to_str, radix_in in E.
+    replace ((2 <=? r) && (r <=? 36)) with true in E by (symmetry; apply andb_true_iff; split; apply Z.leb_le; lia).
+    discriminate.
+  - unfold spec_to_str in E. destruct (radix_in 2 36 r); discriminate.
+Qed.
+Print Assumptions C15_ito_str_ascii.
+
+Example C15_nonvacuous : wfb [1; 2; 3; 4; 5; 6] = true /\ 1 <= 6 / ap_blk addsub /\
+  i_to_str_radix radix (mkint Minus [35; 1]) 36 = Ret [45; 51; 119; 53; 101; 49; 49; 50; 54; 52; 115; 103; 116; 102].
+Proof. split; [|split]; vm_compute; [reflexivity|discriminate|reflexivity]. Qed.
